@@ -21,7 +21,7 @@ RULE = (
     "(screen hash, replacement kind, model, scorer, n_chunks, batch); non-trivial = >=1 masked row and >=1 observed row"
 )
 ASSUMPTIONS = ["observed values exactly 0 or 1 are outside the interaction model's transform (logit gives +-inf) and are not generated for it", "both members of a pair use the same seed and the same global numpy seed so that only masked values differ"]
-REQUIRED = {"own_parameter_blocks_compared": {"quick": 250, "thorough": 3000}, "single_observation_changes": {"quick": 300, "thorough": 4000}, "single_observation_changes_of_a_cell_lines_only_experiment": {"quick": 30, "thorough": 400}, "refusals_of_tiny_negative_values": {"quick": 150, "thorough": 2000}, "pairs_with_non_default_model_switches": {"quick": 80, "thorough": 1000}, "refusals_checked_for_side_effects": {"quick": 200, "thorough": 2500}, "training_sets_with_values_above_one": {"quick": 40, "thorough": 500}, "two_batch_histories": {"quick": 100, "thorough": 1200}, "cli_pairs": {"quick": 6, "thorough": 40}, "cli_replacement_nan": {"quick": 1, "thorough": 6}, "pairs_compared": {"quick": 250, "thorough": 3000}, "artefacts_compared": {"quick": 1200, "thorough": 15000}, "training_set_checks": {"quick": 250, "thorough": 3000}, "refusals_checked": {"quick": 2000, "thorough": 25000}}
+REQUIRED = {"refused_deliveries_of_results": {"quick": 200, "thorough": 2500}, "own_parameter_blocks_compared": {"quick": 250, "thorough": 3000}, "single_observation_changes": {"quick": 300, "thorough": 4000}, "single_observation_changes_of_a_cell_lines_only_experiment": {"quick": 30, "thorough": 400}, "refusals_of_tiny_negative_values": {"quick": 150, "thorough": 2000}, "pairs_with_non_default_model_switches": {"quick": 80, "thorough": 1000}, "refusals_checked_for_side_effects": {"quick": 200, "thorough": 2500}, "training_sets_with_values_above_one": {"quick": 40, "thorough": 500}, "two_batch_histories": {"quick": 100, "thorough": 1200}, "cli_pairs": {"quick": 6, "thorough": 40}, "cli_replacement_nan": {"quick": 1, "thorough": 6}, "pairs_compared": {"quick": 250, "thorough": 3000}, "artefacts_compared": {"quick": 1200, "thorough": 15000}, "training_set_checks": {"quick": 250, "thorough": 3000}, "refusals_checked": {"quick": 2000, "thorough": 25000}}
 N_PAIRS = {"quick": 640, "thorough": 6400}
 
 
@@ -304,6 +304,31 @@ def run_shard(rec, tier, seed, shard, nshards):
             two_batches(rec, rng, MODELS[mname], mname, A, w)
         if pi % 2 == 1:
             every_observation_counts(rec, rng, MODELS[mname], mname, kw, cfg, w)
+
+        # ---------------- a delivery of results that is refused half-way (wrong number of values) and caught by the
+        #                  caller: the rows it named are still masked, so what the models are trained on does not change
+        try:
+            A2 = Screen(**{k_: (v_.copy() if isinstance(v_, np.ndarray) else v_) for k_, v_ in kw.items()})
+            un_p = [p_ for p_ in A2.plates if not p_.is_observed]
+            pl_ = un_p[int(rng.integers(len(un_p)))]
+            sel_ = np.asarray(pl_.selection_vector).copy()
+            try:
+                A2.set_observed(sel_, rng.random(int(sel_.sum()) + 2) + 5.0)
+            except Exception:
+                rec.count("refused_deliveries_of_results")
+                rec.count("oracle_evals")
+                sub2 = A2.subset_observed()
+                same_rows = sub2 is not None and np.array_equal(np.asarray(sub2.selection_vector), np.asarray(A.observation_mask))
+                rec.check(bool(same_rows), "C04/pipeline/refused-results-count-as-observations", lambda: "set_observed refused %d values for the %d rows of an unobserved plate; afterwards subset_observed() selects %d rows (%d before): masked rows would be handed to the model" % (int(sel_.sum()) + 2, int(sel_.sum()), 0 if sub2 is None else int(np.asarray(sub2.selection_vector).sum()), int(np.asarray(A.observation_mask).sum())), w)
+                if sub2 is not None:
+                    mm = MODELS[mname](experiment_space=ExperimentSpace.from_screen(A2), n_embedding_dimensions=1)
+                    try:
+                        mm.add_observations(sub2)
+                        check_training_set(rec, mname, mm, A.subset_observed(), w)
+                    except Exception as e:
+                        rec.did_not_return("train-after-refused-delivery", e)
+        except Exception as e:
+            rec.did_not_return("refused-delivery-setup", e)
 
         # ---------------- refusals
         for m2 in MODELS:
